@@ -271,7 +271,11 @@ def report_property(prop, a, reg, results, extra, seed, t0):
     # ---- output
     rc = 0
     os.makedirs(os.path.join(VERIF, 'replay'), exist_ok=True)
+    seen_kf = set()
     for o, kf in known:
+        if kf['line'] in seen_kf:
+            continue   # one line per listed finding, however many sites of the contract carry the clause
+        seen_kf.add(kf['line'])
         print('KNOWN-FINDING: %s' % kf['line'][len('finding:'):].strip())
     nviol = 0
     for (u, o, msg) in violations:
